@@ -13,7 +13,7 @@ cleanup() { cd /; git -C /repo worktree remove --force $W 2>/dev/null; rm -rf $W
 trap cleanup EXIT
 cd $W
 # make the cgo-bound packages (internal, internal/hwmon, cmd) buildable for demonstrations that live there
-go mod edit -replace github.com/md14454/gosensors=/tmp/mut/gosensors-stub
+go mod edit -replace github.com/md14454/gosensors=/verif/harness/gosensors
 DIR=$(head -1 $DEMO | sed -n 's,^// place in: *,,p' | tr -d ' \r')
 [ -z "$DIR" ] && DIR=internal/controller
 DEMOFILE=$DIR/zz_seeded_demo_test.go
